@@ -136,9 +136,11 @@ PosAxis(g, rs, full, reduced) ==
        ELSE all
 PosTuples(s) ==
     LET P(i) == PosAxis(s.g[i], s.R, s.dim = 1 \/ FullPos2D, s.ex /\ ~ExFull)
+        \* HistPos: the point lies in the first cell of every axis or in the last cell of every axis
+        same(a, b) == ~HistPos \/ (a.ix = 1 <=> b.ix = 1)
     IN CASE s.dim = 1 -> {<<a>> : a \in P(1)}
-         [] s.dim = 2 -> {<<a, b>> : a \in P(1), b \in P(2)}
-         [] s.dim = 3 -> {<<a, b, c>> : a \in P(1), b \in P(2), c \in P(3)}
+         [] s.dim = 2 -> {t \in {<<a, b>> : a \in P(1), b \in P(2)} : same(t[1], t[2])}
+         [] s.dim = 3 -> {t \in {<<a, b, c>> : a \in P(1), b \in P(2), c \in P(3)} : same(t[1], t[2]) /\ same(t[1], t[3])}
 
 InGrid(s, X) == \A i \in 1..s.dim : s.R * s.g[i][1] <= X[i] /\ X[i] <= s.R * s.g[i][Len(s.g[i])]
 
